@@ -314,6 +314,8 @@ class Interp:
                     rv, r2 = self.eval(s, right)
                     raises += r2
                     for s2, b in rv:
+                        if b.kind == "tuple" and all(x.kind == "const" for x in b.val):
+                            b = const(tuple(x.val for x in b.val))  # a display of constants is a constant
                         known = self._cmp_known(s2, node, op, a, b)
                         if isinstance(known, list):  # the rule forked the comparison itself: [(state, truth-of-node)]
                             out += known
@@ -932,6 +934,20 @@ class Interp:
                     st.heap.pop(key, None)
                 st.facts.pop(f"field:{key[0]}.{key[1]}", None)
             self.rule.setattr(self, st, target, base, av)
+        elif isinstance(target, (ast.Tuple, ast.List)) and any(isinstance(t, ast.Starred) for t in target.elts):
+            # a, *rest = x   (term-building rules get element / slice terms; others lose the parts)
+            n = len(target.elts)
+            j = [i for i, t in enumerate(target.elts) if isinstance(t, ast.Starred)][0]
+            for i, t in enumerate(target.elts):
+                if not (self.rule.wants_subscript and av.sym):
+                    self.assign(st, t.value if isinstance(t, ast.Starred) else t, UNK)
+                elif i < j:
+                    self.assign(st, t, AV("unk", sym=f"idx({av.sym},{i})"))
+                elif i == j:
+                    hi = "" if j == n - 1 else str(-(n - 1 - j))
+                    self.assign(st, t.value, AV("unk", sym=self.rule.term("slice", av.sym, str(j), hi, ""), none=False))
+                else:
+                    self.assign(st, t, AV("unk", sym=f"idx({av.sym},{-(n - i)})"))
         elif isinstance(target, (ast.Tuple, ast.List)):
             if av.kind == "tuple" and len(av.val) == len(target.elts):
                 parts = av.val
@@ -1222,6 +1238,9 @@ class BaseRule:
 
     def compose(self, it, st, node, children):
         return None
+
+    def term(self, op, *args):
+        return f"{op}(" + ",".join(args) + ")"
 
     def global_value(self, it, name):
         return None
